@@ -240,7 +240,22 @@ def path_sign(it, expr):
     if ks is not None:
         return frozenset('+' if ks > 0 else '-')
     sgn, key, text = _canon_diff(expr)
-    cur = it.trace.signs.get(key, frozenset('-0+'))
-    if sgn < 0:
-        cur = frozenset({'-': '+', '+': '-', '0': '0'}[c] for c in cur)
-    return cur
+    flip = lambda cur: frozenset({'-': '+', '+': '-', '0': '0'}[c] for c in cur)
+    if key in it.trace.signs:
+        cur = it.trace.signs[key]
+        return flip(cur) if sgn < 0 else cur
+    if not expr.is_poly():
+        # printed forms of quotients are not canonical: look the test up semantically
+        from svtstatic.poly import fingerprint
+        fp = fingerprint(expr)
+        for k2, e2 in it.trace.sign_exprs.items():
+            if k2 not in it.trace.signs or e2.is_poly():
+                continue
+            f2 = fingerprint(e2)
+            if fp is None or f2 is None:
+                continue
+            if abs(fp - f2) < 1e-7 * (1 + abs(fp)) and expr.equals(e2):
+                return it.trace.signs[k2]
+            if abs(fp + f2) < 1e-7 * (1 + abs(fp)) and expr.equals(-e2):
+                return flip(it.trace.signs[k2])
+    return frozenset('-0+')
